@@ -1,4 +1,4 @@
-(* Dispatch table of model units for the correspondence check (val -> val). *)
+(* area core: dispatch table of model units for the correspondence check (val -> val). *)
 From Coq Require Import String.
 From V Require Import Prelude.Base Prelude.Val Prelude.TrueDiv gen.Kernels.
 From V Require Import Model.Interval Model.Crypto Model.Sym Model.Types Model.Chain Model.Dns.
